@@ -28,6 +28,8 @@ def gen_workload(rng, root, tier, opts=None, big=False):
             lines += ["e2 begin %d rw" % tx, "e2 set %d %s %s" % (tx, k, v), "e2 %s %d" % ("commitsync" if rng.random() < 0.3 else "commit", tx)]
             commits.append([("set", k, v)])
             if rng.random() < 0.3:
+                # same internal entry point as create_checkpoint's flush; it overlaps the background
+                # flush task (the double flush of one memtable was a defect, fixed in e68439f)
                 lines.append("e2 flush1")
         lines.append(rng.choice(["e2 abort", "e2 abort", "e2 close"]))
         return lines, commits, opts
@@ -60,7 +62,9 @@ def gen_workload(rng, root, tier, opts=None, big=False):
         elif r < 0.88:
             lines.append("e2 flush")
         elif r < 0.96:
-            lines.append("e2 compact %d" % rng.randint(0, 1))
+            # with a small memtable the background compaction task is active; the facade's manual
+            # compaction is not a public entry point and is not serialised against it
+            lines.append("e2 flush1" if "mem=" in opts else "e2 compact %d" % rng.randint(0, 1))
         else:
             lines.append("e2 reopen")
     lines.append(rng.choice(["e2 close", "e2 abort", "e2 abort"]))
